@@ -13,6 +13,11 @@ use crate::{
 
 const STACK_LIMIT: usize = 32;
 
+/// How deeply expressions (parentheses, subscripts, function arguments) and
+/// `IF ... THEN` clauses can be nested. Evaluating them is recursive, so
+/// without a limit a pathological line overflows our own (native) stack.
+const NESTING_LIMIT: usize = 64;
+
 #[derive(Debug, Default, Copy, Clone, PartialEq)]
 pub enum ProgramLine {
     #[default]
@@ -100,9 +105,25 @@ pub struct Program {
     loop_stack: Vec<LoopInfo>,
     data_iterator: Option<DataIterator>,
     functions: HashMap<Symbol, FunctionDefinition>,
+    nesting_depth: usize,
 }
 
 impl Program {
+    /// Call this before evaluating something that can contain itself (an
+    /// expression, or the statement after a `THEN`), and `leave_nested`
+    /// once done with it, regardless of whether it succeeded.
+    pub fn enter_nested(&mut self) -> Result<(), TracedInterpreterError> {
+        if self.nesting_depth == NESTING_LIMIT {
+            return Err(OutOfMemoryError::StackOverflow.into());
+        }
+        self.nesting_depth += 1;
+        Ok(())
+    }
+
+    pub fn leave_nested(&mut self) {
+        self.nesting_depth = self.nesting_depth.saturating_sub(1);
+    }
+
     /// Set the content of the "immediate" line (i.e., the line that is being
     /// evaluated by the interpreter and has no line number) and go there.
     ///
